@@ -4,6 +4,7 @@
 #[macro_use]
 pub mod common;
 
+pub mod c03;
 pub mod c04;
 pub mod c05;
 
@@ -25,6 +26,7 @@ macro_rules! module {
 
 pub fn modules() -> Vec<Module> {
     vec![
+        module!("C03", c03),
         module!("C04", c04),
         module!("C05", c05),
     ]
